@@ -15,7 +15,7 @@ the retired_extents list; a scanned record loses iff the indexed one has a stric
 queues the scanned extent and the replace branch queues the existing extent. Not decided: equality of contents across
 nested recoveries; that repairs touch no live block (value-level).
 """
-DECIDED = ["replay: markers before clear, clear on Ok edge", "post-scan retirement is journalled and fed from retired_extents",
+DECIDED = ['journal position continuity: decoded (generation, slot) always restored; next = (generation + 1, other slot); advanced only after write + flush', "replay: markers before clear, clear on Ok edge", "post-scan retirement is journalled and fed from retired_extents",
            "winner rule: strict `existing.timestamp > scanned.timestamp` loses; right extent queued on each branch"]
 NOT_DECIDED = ["contents equality across recoveries", "repairs touch only dead blocks (value-level)"]
 ASSUMPTIONS = []
